@@ -22,6 +22,10 @@ def step_pool(rng, shape):
         ('resample', {'cls': 'SmallestMaxSize', 'args': {'max_size': rng.randint(max(2, m // 2 + 1), 2 * m), 'interpolation': 0}}),
         ('resample', {'cls': 'Resize', 'args': {'height': rng.randint(3, 2 * H), 'width': rng.randint(3, 2 * W), 'depth': rng.randint(2, 2 * D), 'interpolation': 0}}),
         ('scale_param', {'cls': 'ShiftScaleRotate', 'args': {'scale_limit': (0.2, 0.5), 'rotate_limit': 10}}),
+        # the plane only selects where the rotation happens: the magnification acts on rows and columns in every plane
+        ('scale_param', {'cls': 'ShiftScaleRotate', 'args': {'scale_limit': (0.2, 0.5), 'rotate_limit': 10, 'axes': 'yz'}}),
+        ('scale_param', {'cls': 'ShiftScaleRotate', 'args': {'scale_limit': (-0.4, -0.2), 'rotate_limit': 10, 'axes': 'xz'}}),
+        ('scale_param', {'cls': 'ShiftScaleRotate', 'args': {'scale_limit': (0.2, 0.5), 'rotate_limit': 0, 'axes': ['yz', 'xz']}}),
         ('target', {'cls': 'SetPixelSpacing', 'args': {'space_x': rng.choice([0.5, 0.8, 1.25]), 'space_y': rng.choice([0.5, 0.7, 1.0]), 'interpolation': 0}}),
         ('swap', {'cls': 'Transpose', 'args': {}}),
         ('rot', {'cls': 'RandomRotate90', 'args': {'axes': 'xy'}}),
